@@ -4,6 +4,21 @@ import json, os
 PROPS = [json.loads(l)['id'] for l in open('/verif/properties.jsonl')]
 
 CLAIMED = {
+ 'C16': dict(
+   category='proof',
+   text=('The cache is proved (Coq) to refine the undecorated pure function for ALL histories of call / cache_clear / clear_cache / re-wrapping, '
+         'any number of simultaneously live wrappers and all maxsize values (None, 0, n): every call returns f(args), results are independent of '
+         'history, a hit only hands out a value stored under an equal key, size bound holds. The two premises the theorem needs from the code -- '
+         'equal argument tuples give equal results (key completeness) and cached values are never altered -- are validated on every cache access '
+         'of a generated workload by probes at every binding site (cold recomputation + digest at insertion vs at hit); registry facts (re-wrapped '
+         'and cleared functions are decorated; cached functions read only parameters/locals/immutable module definitions) are regenerated from '
+         'the source and proved by computation; CPython lru_cache is validated against the model on random histories; end results are compared '
+         'bit-for-bit cold vs warm vs resized vs cleared. No finite set of tests covers all histories; the theorem does.'),
+   design_ref='DESIGN.md section 6 C16',
+   note=('Trusted: Coq kernel, no axioms; translator tr_cache.py; CPython lru_cache meets Lru.v (validated each run); the premises key_complete / '
+         'immutability hold on the exercised workload only (all 18 cached functions hit; listed in evidence) -- they are Section hypotheses of the '
+         'theorem, not proved about the Python code.'),
+   technique='Coq proof (LRU refinement, all histories) + translator for registry facts + dynamic premise validation by probes'),
  'C20': dict(
    category='proof',
    text=('For EVERY unit-cell size Nx,Ny>=1 and every boundary type (not only the <=5x5 box): neighbour lookup is mutually inverse wherever '
